@@ -410,4 +410,3 @@ Lemma refines : forall ip6 handler mw up ip fp (reads : list (list str)),
   flat (run ip6 handler mw up ip fp init (map ERead reads)) =
   flat (run ip6 handler mw up ip fp init [ERead [concat (concat reads)]]).
 Proof. exact refines_sec. Qed.
-Print Assumptions refines.
